@@ -100,6 +100,18 @@ Theorem C02_run_total :
 Proof. exact run_factory_total. Qed.
 Print Assumptions C02_run_total.
 
+(* S3 (refuted for the faithful model of the command-line wiring): `build --lua-minify
+   --keep-all-names` does not keep the names; `luamin` passes the options on *)
+Theorem C02_build_keep_options_refuted :
+  exists names outs n o,
+    run_factory (build_minify_config true None) names = Ok outs /\ observed names outs n o /\ o <> n.
+Proof. exact build_keep_options_refuted. Qed.
+Print Assumptions C02_build_keep_options_refuted.
+
+Theorem C02_luamin_config : forall ka kf, luamin_config ka kf = mk_config ka kf.
+Proof. exact luamin_config_spec. Qed.
+Print Assumptions C02_luamin_config.
+
 (* ---------- non-vacuity ---------- *)
 Example C02_ids : map name_for_id [0; 25; 26; 675; 676; 17575; 17576] =
   map (fun s => Ok (unBS s)) ["a"%bs; "z"%bs; "ba"%bs; "zz"%bs; "baa"%bs; "zzz"%bs; "baaa"%bs].
